@@ -586,7 +586,7 @@ func runFuzz(c *vk.Ctx, name string, execs int) {
 					break
 				}
 			}
-			cls = panicClass(strings.TrimPrefix(line, "panic: "), "") 
+			cls = panicClass(strings.TrimPrefix(line, "panic: "), "")
 			cls = fn + strings.TrimPrefix(cls, "?")
 		}
 		c.Violate("C11/panic/"+cls, "go test -fuzz "+name+" found a crasher:\n"+vk.Trunc(s, 2500), map[string]interface{}{"fuzz_target": name, "crasher_files": crash, "seed": c.Seed})
